@@ -1,6 +1,6 @@
 CONSTANTS
   Dev = {}
-  Scenario = "small"
+  Scenario = "all"
   MaxOps = 9
   CompSet = {"none", "static", "tree", "hash"}
   TgtSet = {"vec", "array", "stream", "sarray"}
